@@ -6,7 +6,7 @@
 From Coq Require Import List String ZArith Bool Arith Ascii.
 From GinV Require Import Lib.Out Lib.PyStr Model.Parser Model.ParserSpec.
 From GinV Require Import Proofs.ParserLemmas Proofs.ParserProofs Proofs.ParserSound Proofs.ParserApi.
-From GinV Require Import Model.Lexer Proofs.LexerProofs Proofs.LexerParser.
+From GinV Require Import Model.Lexer Proofs.LexerProofs Proofs.LexerParser Proofs.LexerFlush.
 Import ListNotations.
 Open Scope string_scope.
 Open Scope list_scope.
@@ -172,6 +172,24 @@ Theorem Lexer_api_sound : forall s ts o v,
     Forall (fun t => ty t = NEWLINE \/ ty t = NL \/ ty t = COMMENT) skipped /\ ty e = ENDMARKER.
 Proof. exact lexer_api_sound. Qed.
 
+
+(* A CHARACTER-level condition for "no INDENT token": [flush_left s] -- no line of the text begins with a blank or a
+   backslash (sufficient, not necessary: indented lines inside brackets would be harmless) *)
+Theorem Lexer_flush_left_no_INDENT : forall s ts, lex s = Some ts -> flush_left s = true ->
+  Forall (fun t => ty t <> INDENT) ts.
+Proof. exact lex_flush_no_indent. Qed.
+(* ... so the end-to-end theorem needs no hypothesis about INDENT tokens *)
+Theorem Lexer_api_sound_text : forall s ts o v,
+  lex s = Some ts -> flush_left s = true ->
+  run_value_api (o, ts) = OT "Value" [v] ->
+  (forall t, In t ts -> text t <> "@" /\ text t <> "%") ->
+  (forall t, In t ts -> ty t = STRING -> forall w, olookup o ("-" ++ text t)%string <> Some (Some w)) ->
+  exists l lay toks n' used skipped e more,
+    lay_ok lay /\ lit_wf o l /\ py_eval o l = Some v /\ render l lay 0 true = (toks, n') /\
+    Forall2 tok_sim toks used /\ ts = used ++ skipped ++ e :: more /\
+    Forall (fun t => ty t = NEWLINE \/ ty t = NL \/ ty t = COMMENT) skipped /\ ty e = ENDMARKER.
+Proof. exact lexer_api_sound_text. Qed.
+
 Print Assumptions Lexer_defined_iff_supported.
 Print Assumptions Lexer_shape.
 Print Assumptions Lexer_endmarker_last.
@@ -200,3 +218,5 @@ Print Assumptions Lexer_canon_punct_iff_no_punct.
 Print Assumptions Lexer_bracket_example.
 Print Assumptions C02_api_sound_plain.
 Print Assumptions Lexer_api_sound.
+Print Assumptions Lexer_flush_left_no_INDENT.
+Print Assumptions Lexer_api_sound_text.
